@@ -463,11 +463,24 @@ package fit
 //@@ assumed (a loop over the global table of reflect.Type values, compared with ==; the table itself is checked by the
 //@@ closed obligations msgsTypes#injective and knownMsgNums.<m>#type): the struct type of a known message is found
 //@@ under its number
+//@@ the entry of msgsTypes under a known message number is that message's struct type (over the extracted
+//@@ initialiser of the table; reflect.TypeOf(XMsg{}) is the identity the reflect model gives the type of a
+//@@ Value viewing an XMsg)
+//@ lemma msgtype_row(t reflect.Type)
+//@   props C05 C06 C07 C15
+//@   reveal tables
+//@   concl rtypemsg(t) >= 0 && rtypemsg(t) < 0xFF00 && knownMsgNums[MesgNum(rtypemsg(t))] ==> rtypemsg(t) < len(msgsTypes) && msgsTypes[rtypemsg(t)] == t
+
 //@ func getGlobalMesgNum(t reflect.Type) (r MesgNum)
 //@   props C05 C06 C07
-//@   trusted
+//@   locals rangeindex int
+//@   reveal tables
+//@   usepost msgtype_row(t)
 //@   ensures [msg] rtypemsg(t) >= 0 && rtypemsg(t) < 0xFF00 && knownMsgNums[MesgNum(rtypemsg(t))] ==> int(r) == rtypemsg(t)
 //@   assigns nothing
+//@   loop 0 invariant [range] -1 <= rangeindex && rangeindex < len(msgsTypes)
+//@   loop 0 invariant [none-before] forall k in 0..rangeindex+1 :: msgsTypes[k] != t
+//@   loop 0 decreases len(msgsTypes) - rangeindex
 
 //@ func profileFieldDef(m MesgNum) (r [256]*field)
 //@   props C05 C06 C07
